@@ -109,7 +109,7 @@ def run_kani_unit(unit_name, gen, cfg, harness_filter, tier, use_cache=True, job
     os.makedirs(cache_dir, exist_ok=True)
     results, todo, hits = {}, [], 0
     for h in sel:
-        key = hashlib.sha256((th + '|' + h + '|' + ' '.join(kani.KANI_FLAGS)).encode()).hexdigest()
+        key = hashlib.sha256((th + '|' + h + '|' + ' '.join(kani.KANI_FLAGS + info.get('kani_extra', []))).encode()).hexdigest()
         cp = os.path.join(cache_dir, key + '.json')
         if use_cache and os.path.exists(cp):
             try:
@@ -127,7 +127,7 @@ def run_kani_unit(unit_name, gen, cfg, harness_filter, tier, use_cache=True, job
         try:
             r = kani.run(outdir, [h for h, _ in todo], jobs=jobs, prefix=prefix,
                          harness_timeout=info.get('harness_timeout', 900), tag=tag,
-                         extra=['--target-dir', os.path.join(WORK, cfg, 'target_' + tag)])
+                         extra=info.get('kani_extra', []) + ['--target-dir', os.path.join(WORK, cfg, 'target_' + tag)])
         except kani.ToolFailure as e:
             raise Undecided(str(e))
         finally:
